@@ -219,6 +219,8 @@ class GridSpec:
           cells with :py:class:`odc.geo.geobox.GeoBox` tiles
         """
         geopolygon = geopolygon.to_crs(self.crs, check_and_fix=True)
+        if geopolygon.is_empty:
+            return
         bbox = geopolygon.boundingbox
 
         for tile_index, tile_geobox in self.tiles(bbox, geobox_cache):
